@@ -3909,6 +3909,9 @@ def plain_column_projection(expr, parent, dependents, additional_columns=None):
 
 
 def is_filter_pushdown_available(expr, parent, dependents, allow_reduction=True):
+    if parent.frame._name != expr._name:
+        # expr is (part of) the predicate, parent doesn't filter expr
+        return False
     parents = [x() for x in dependents[expr._name] if x() is not None]
     filters = {e._name for e in parents if isinstance(e, Filter)}
     if len(filters) != 1:
